@@ -34,7 +34,7 @@ Qed.
 Theorem tbound_step s o : sinv s -> wf_step s o -> tbound s -> tbound (fst (step s o)).
 Proof.
   intros SI W [TU TL]. pose proof (sinv_step s o SI W) as SI'. destruct SI as [UO IL].
-  destruct o as [id key sf deny|r payload pc h|r src size|r key|r mh|r io]; cbn [step].
+  destruct o as [id key sf deny|r payload pc h|r src size|r key|r mh|r io|r payload pc h|r]; cbn [step].
   - split; [exact TU|]. cbn [fst s_logs s_univ]. intros r l H.
     destruct (Nat.lt_ge_cases r (length (s_logs s))) as [Hl|Hl].
     + rewrite nth_error_app1 in H by assumption. eauto.
@@ -81,6 +81,21 @@ Proof.
     destruct (olen (l_heads l) =? 0); split; auto.
   - destruct (nth_error (s_logs s) r) as [l|] eqn:L; [|split; auto].
     destruct (iterator l io) as [[es c]| |]; split; auto.
+  - destruct (nth_error (s_logs s) r) as [l|] eqn:L; [|split; auto].
+    destruct (append_entry l payload pc h) as [e|] eqn:AE; [|split; auto].
+    assert (Ht : 0 < e_time e <= Z.of_nat (length (s_univ s)) + 1).
+    { rewrite (ae_time l payload pc h e AE). destruct (TL r l L).
+      assert (max_time (oslice (sorted_heads l)) 0 <= Z.of_nat (length (s_univ s))).
+      { apply max_time_bound; [lia|]. intros x Hx. apply In_oslice in Hx. destruct Hx as [k Hx].
+        apply sorted_heads_In in Hx; [|apply (li_heads_nodup _ _ (IL r l L))|apply (heads_well_keyed _ _ (IL r l L))].
+        apply TU. eapply heads_in_U; [apply (IL r l L)|]. apply In_oslice. eauto. }
+      pose proof (max_time_ge (oslice (sorted_heads l)) 0). lia. }
+    cbn [fst]. split; cbn [s_univ s_logs]; rewrite app_length; cbn [length].
+    + intros x Hx. rewrite in_app_iff in Hx. cbn [In] in Hx. destruct Hx as [Hx|[<-|[]]]; [specialize (TU x Hx)|]; lia.
+    + intros r' l'' H. rewrite nth_error_set_nth, L in H. destruct (Nat.eqb r r').
+      * injection H as <-. cbn [set_time l_time]. lia.
+      * specialize (TL r' l'' H). lia.
+  - split; auto.
 Qed.
 
 Theorem tbound_run_from ops : forall s, sinv s -> wf_from s ops -> tbound s -> tbound (run_from s ops).
@@ -98,7 +113,7 @@ Qed.
 (* the universe grows by at most one entry per operation *)
 Lemma univ_length_step s o : (length (s_univ (fst (step s o))) <= S (length (s_univ s)))%nat.
 Proof.
-  destruct o as [id key sf deny|r payload pc h|r src size|r key|r mh|r io]; cbn [step]; cbn [fst s_univ]; try lia.
+  destruct o as [id key sf deny|r payload pc h|r src size|r key|r mh|r io|r payload pc h|r]; cbn [step]; cbn [fst s_univ]; try lia.
   - destruct (nth_error (s_logs s) r) as [l|]; [|cbn; lia].
     destruct (append l payload pc h) as [l' [e|[]|]]; cbn [fst s_univ]; rewrite ?app_length; cbn [length]; try lia.
     destruct (append_entry l payload pc h); cbn [fst s_univ]; rewrite ?app_length; cbn [length]; lia.
@@ -108,6 +123,8 @@ Proof.
   - destruct (nth_error (s_logs s) r) as [l|]; cbn; lia.
   - destruct (nth_error (s_logs s) r) as [l|]; [|cbn; lia]. destruct (olen (l_heads l) =? 0); cbn; lia.
   - destruct (nth_error (s_logs s) r) as [l|]; [|cbn; lia]. destruct (iterator l io) as [[es c]| |]; cbn; lia.
+  - destruct (nth_error (s_logs s) r) as [l|]; [|cbn; lia].
+    destruct (append_entry l payload pc h); cbn [fst s_univ]; rewrite ?app_length; cbn [length]; lia.
 Qed.
 
 Lemma univ_length_run_from ops : forall s, (length (s_univ (run_from s ops)) <= length (s_univ s) + length ops)%nat.
